@@ -178,6 +178,7 @@ func VerifC05_Required() {
 func VerifC05_Shorthand() {
 	how := zzChoice("how", 4)
 	nKind := zzChoice("nkind", 2)
+	inside := zzBool("insideComponent")
 	data := map[string]any{"tv": "TV"}
 	if nKind == 0 {
 		data["nv"] = 5
@@ -198,6 +199,13 @@ func VerifC05_Shorthand() {
 	fsys := zzC05FS()
 	explicit := `<div><template include="components/my-card.vuego"` + props + `></template><b>{{ title }}</b></div>`
 	short := `<div><my-card` + props + `></my-card><b>{{ title }}</b></div>`
+	if inside {
+		// the tag is used inside an included component file
+		fsys.files["wrap_e.vuego"] = explicit
+		fsys.files["wrap_s.vuego"] = short
+		explicit = `<section><template include="wrap_e.vuego"></template></section>`
+		short = `<section><template include="wrap_s.vuego"></template></section>`
+	}
 	out1, err1 := zzRender(NewFS(fsys, WithComponents()), explicit, data)
 	out2, err2 := zzRender(NewFS(fsys, WithComponents()), short, data)
 	zzNote("explicit", out1)
